@@ -1,7 +1,7 @@
 #!/venv/bin/python
 """Run the built checks against every seeded variant (each in its own scratch worktree, in parallel) and print
 which properties report a VIOLATION.  usage: seed_matrix.py [seed-id-prefix ...]   (writes seeded/MATRIX.json)"""
-import json, os, subprocess, sys
+import json, os, shutil, subprocess, sys, tempfile
 from concurrent.futures import ThreadPoolExecutor
 from pathlib import Path
 
@@ -11,6 +11,10 @@ seeds = sorted(p.name for p in (VERIF / SEED_DIR).iterdir() if (p / "patch.diff"
 if len(sys.argv) > 1:
     seeds = [s for s in seeds if any(s.startswith(a) for a in sys.argv[1:])]
 built = sorted(p.stem.upper() for p in (VERIF / "vstat/rules").glob("c[0-9][0-9].py"))
+# the checks run from a snapshot of the checker, so that it can be edited while a matrix is running
+SNAP = Path(tempfile.mkdtemp(prefix="vstat_snap_"))
+shutil.copytree(VERIF / "vstat", SNAP / "vstat", ignore=shutil.ignore_patterns("__pycache__"))
+shutil.copy(VERIF / "known_findings.json", SNAP / "known_findings.json")
 
 
 def run(seed):
@@ -23,7 +27,7 @@ def run(seed):
         out = {}
         env = dict(os.environ, VSTAT_NO_EVIDENCE="1", VSTAT_WORKERS=os.environ.get("VSTAT_WORKERS", "4"))
         for prop in built:
-            p = subprocess.run(["/venv/bin/python", "-m", "vstat", prop, "--repo", wt], cwd=VERIF, capture_output=True, text=True, env=env)
+            p = subprocess.run(["/venv/bin/python", "-m", "vstat", prop, "--repo", wt], cwd=SNAP, capture_output=True, text=True, env=env)
             rules = sorted({l.split()[0] for l in p.stdout.splitlines() if l.startswith("  C")})
             out[prop] = {"exit": p.returncode, "rules": rules}
             if p.returncode == 2:
@@ -35,6 +39,7 @@ def run(seed):
 
 with ThreadPoolExecutor(8) as ex:
     results = dict(ex.map(run, seeds))
+shutil.rmtree(SNAP, ignore_errors=True)
 matrix_path = VERIF / SEED_DIR / "MATRIX.json"
 old = json.loads(matrix_path.read_text()) if matrix_path.exists() else {}
 old.update(results)
